@@ -2,7 +2,7 @@
 import re, os
 from engine import *
 from refusal import *
-from c12 import canon
+from c12 import canon, validated_list, validating_collect
 PROP = 'C13'
 def m(name): return ('msg', None, name)
 
@@ -15,11 +15,7 @@ def package_info():
     return name, ver
 
 def validated_list_inst(listterm, got):
-    if got[0] != 'vec': return False
-    for k, x in enumerate(got[1]):
-        elem = V(('iternext', ('iter', listterm), k), 'Some')
-        if x != ('ok', ('rcall', 'addr_validate', (elem,))): return False
-    return True
+    return validated_list(listterm, got)
 
 def fee_expect(p, side):
     rate = m(side + '_fee_rate'); acct = m(side + '_fee_account')
@@ -46,7 +42,7 @@ def run(eng, tier):
         guards = [('name', ('val', ISEMPTY(m('name')), False)), ('base_denom', ('val', ISEMPTY(m('base_denom')), False)),
                   ('quote-list', ('val', ISEMPTY(m('supported_quote_denoms')), False)), ('executor-list', ('val', ISEMPTY(m('executors')), False)),
                   ('precision<=18', ('val', LT(I(18), m('price_precision')), False)), ('increment>=1', ('val', LT(m('size_increment'), I(1)), False)),
-                  ('increment-multiple-of-10^precision', ('val', EQ(I(0), REM(m('size_increment'), ('pow', I(10), m('price_precision')))), True))]
+                  ('increment-multiple-of-10^precision', ('val', EQ(I(0), REM(m('size_increment'), POW10(m('price_precision')))), True))]
         for name, f in guards:
             pos = p.pos(f)
             eng.ob(pos is not None and pos < first, PROP, 'guard', name, 'a configuration is stored on a path that does not establish %s: %s' % (name, fact_key(f)), detail=p.describe(20), sample={'rule': 'guard', 'condition': name})
@@ -77,7 +73,9 @@ def run(eng, tier):
     refs = Refusals(eng, 'instantiate')
     def isf(e, f): return e['fact'] == f
     def addr_err(e):
-        f = e['fact']; return f is not None and f[0] == 'is' and f[2] == 'Err' and f[1][0] == 'rcall' and f[1][1] == 'addr_validate'
+        f = e['fact']
+        if f is not None and f[0] == 'is' and f[2] == 'Err' and f[1][0] == 'collect': return validating_collect(f[1], m('approvers')) or validating_collect(f[1], m('executors'))
+        return f is not None and f[0] == 'is' and f[2] == 'Err' and f[1][0] == 'rcall' and f[1][1] == 'addr_validate'
     T = [
         ('empty-name', 'L', lambda e: isf(e, ('val', ISEMPTY(m('name')), True))), ('empty-base', 'L', lambda e: isf(e, ('val', ISEMPTY(m('base_denom')), True))),
         ('empty-quotes', 'L', lambda e: isf(e, ('val', ISEMPTY(m('supported_quote_denoms')), True))), ('empty-executors', 'L', lambda e: isf(e, ('val', ISEMPTY(m('executors')), True))),
@@ -86,7 +84,7 @@ def run(eng, tier):
         ('increment-below-1', 'L', lambda e: is_sign(e['fact'], m('size_increment'), 'zero')),
         ('invalid-address', 'L', addr_err),
         ('rate-unparsable', 'L', lambda e: e['fact'] is not None and e['fact'][0] == 'is' and e['fact'][2] == 'Err' and e['fact'][1][0] == 'rcall' and e['fact'][1][1] == 'from_str'),
-        ('increment-not-multiple', 'L', lambda e: isf(e, ('val', EQ(I(0), REM(m('size_increment'), ('pow', I(10), m('price_precision')))), False))),
+        ('increment-not-multiple', 'L', lambda e: isf(e, ('val', EQ(I(0), REM(m('size_increment'), POW10(m('price_precision')))), False))),
         ('storage', 'I', lambda e: is_save_err(e['fact']) or is_storage_load_err(e['fact'])),
         ('loop-bound', 'B(analysis bound: more than 2 list elements are covered by the per-iteration obligations)', lambda e: e['fact'] is not None and e['fact'][0] == 'is' and e['fact'][1][0] == 'iternext' and e['fact'][2] == 'Some'),
     ]
